@@ -65,8 +65,7 @@ func genC14(rt *rapid.T) c14Case {
 		"peek", "upd", "upd", "clear", "elems", "restore",
 		"json", "jsonstruct", "query",
 	}
-	n := rapid.IntRange(0, 40).Draw(rt, "n")
-	for i := 0; i < n; i++ {
+	opGen := rapid.Custom(func(rt *rapid.T) c14Op {
 		op := c14Op{K: rapid.SampledFrom(kinds).Draw(rt, "k")}
 		switch op.K {
 		case "push", "upd":
@@ -84,8 +83,10 @@ func genC14(rt *rapid.T) c14Case {
 		case "json", "jsonstruct":
 			op.Swap = rapid.Bool().Draw(rt, "swap")
 		}
-		c.Ops = append(c.Ops, op)
-	}
+		return op
+	})
+	minOps := rapid.SampledFrom([]int{0, 6, 15, 25}).Draw(rt, "minops")
+	c.Ops = rapid.SliceOfN(opGen, minOps, 40).Draw(rt, "ops")
 	return c
 }
 
